@@ -1002,7 +1002,7 @@ def cmp_c06(payload, impl, model):
 
 PROPS["C06"] = dict(
     coq="Properties_C06",
-    level_text="Proved in Coq on the decoder and unmarshaller models: the decoder runs always end in a value or an error — the models have an explicit panic outcome for every partial Go operation and it is unreachable, and the step budgets 2*len+2 / len+2 are never exhausted (C04/C05 totality); tokens and payload bytes produced are linear in the bytes consumed (factor 2 for CBOR, 3 for JSON because an invalid byte becomes U+FFFD); the CBOR decoder's allocation account is at most 16 bytes per byte consumed whatever lengths the input declares, and the single request a failing step may have made is at most the 32 MiB per-item cap (plus a linear term for chunked strings) (BoundsProof.v). The unmarshaller model has no panic outcome; it needs linearly many steps for every atlas whose token-free chains through transform wires and tags are bounded (a cyclic chain diverges: refuted example, the defect D20), and the value it builds is bounded by the tokens consumed — a declared length never sizes anything. Tied to refmt.UnmarshalAtlased (untyped and typed targets) and to both pumps by running adversarial inputs (length headers up to 2^64-1 on every major type, chunk floods, nesting to 20000, oversized numbers, every half float, every initial byte) plus random, mutated and structure-biased inputs, each under a watchdog, measuring runtime.MemStats.TotalAlloc against the bound.",
+    level_text="Proved in Coq on the decoder and unmarshaller models: the decoder runs always end in a value or an error — the models have an explicit panic outcome for every partial Go operation and it is unreachable, and the step budgets 2*len+2 / len+2 are never exhausted (C04/C05 totality); tokens and payload bytes produced are linear in the bytes consumed (factor 2 for CBOR, 3 for JSON because an invalid byte becomes U+FFFD); the CBOR decoder's allocation account is at most 16 bytes per byte consumed whatever lengths the input declares, and the single request a failing step may have made is at most the 32 MiB per-item cap (plus a linear term for chunked strings) (BoundsProof.v). The unmarshaller model has no panic outcome; it needs linearly many steps for every atlas whose token-free chains through transform wires and tags are bounded (a cyclic chain diverges: refuted example, the defect D20), and the value it builds is bounded by the tokens consumed — a declared length never sizes anything. Tied to refmt.UnmarshalAtlased (untyped and typed targets) and to both pumps by running adversarial inputs (length headers up to 2^64-1 on every major type, chunk floods, nesting to 20000, oversized numbers, every half float, every initial byte, floods of thousands of one- and two-byte chunks held to 2 MiB + 128 bytes per input byte, byte strings of every small length into every bytes-like target incl. arrays and slices of a named byte type) plus random, mutated and structure-biased inputs, each under a watchdog, measuring runtime.MemStats.TotalAlloc against the bound.",
     level_note="partial w.r.t. the real allocator: the model accounts for requested sizes; the harness measures TotalAlloc with a generous per-byte slack (measured ~5 KiB of heap per nesting level for untyped JSON). Trusted as in trusted_base. No axioms.",
     rule="(format, target type or pump, bytes); non-trivial = input of at least 3 bytes; distinct by payload",
     trusted_base=_OBJ_TB,
